@@ -15,8 +15,9 @@ GOk(v, i) == [ok |-> TRUE, v |-> v, i |-> i]
 GErr(why) == [ok |-> FALSE, why |-> why]
 
 (****************************  multi-word keywords  ************************)
-W3 == { <<"FULL", "OUTER", "JOIN">>, <<"DO", "UPDATE", "SET">>, <<"ON", "DUPLICATE", "KEY">>, <<"FOR", "KEY", "SHARE">> }
-W2 == { <<"GROUP", "BY">>, <<"ORDER", "BY">>, <<"PARTITION", "BY">>, <<"LEFT", "JOIN">>, <<"RIGHT", "JOIN">>, <<"INNER", "JOIN">>,
+W3 == { <<"FOR", "ORDER", "BY">>, <<"FOR", "GROUP", "BY">>,      \* scope of a MySQL index hint, not a clause
+        <<"FULL", "OUTER", "JOIN">>, <<"DO", "UPDATE", "SET">>, <<"ON", "DUPLICATE", "KEY">>, <<"FOR", "KEY", "SHARE">> }
+W2 == { <<"FOR", "JOIN">>, <<"GROUP", "BY">>, <<"ORDER", "BY">>, <<"PARTITION", "BY">>, <<"LEFT", "JOIN">>, <<"RIGHT", "JOIN">>, <<"INNER", "JOIN">>,
         <<"CROSS", "JOIN">>, <<"UNION", "ALL">>, <<"NOT", "MATERIALIZED">>, <<"ON", "CONFLICT">>, <<"DO", "NOTHING">>,
         <<"DEFAULT", "VALUES">>, <<"FOR", "UPDATE">>, <<"FOR", "SHARE">>, <<"SKIP", "LOCKED">>, <<"NULLS", "FIRST">>,
         <<"NULLS", "LAST">>, <<"INSERT", "INTO">>, <<"REPLACE", "INTO">>, <<"DELETE", "FROM">>, <<"DISTINCT", "ON">>,
@@ -169,12 +170,19 @@ TableRef(B, T, D, s, e) ==
       LET r == ValuesRows(B, T, D, s + 2, m, <<>>) IN IF ~r.ok THEN r ELSE GOk([k |-> "values", rows |-> r.v, a |-> T[m + 2].v], e)
     ELSE LET q == ParseQueryIn(B, T, D, s + 1, m) IN IF ~q.ok THEN q ELSE GOk([k |-> "subq", q |-> q.v, a |-> T[m + 2].v], e)
   ELSE
-    LET h == IF B = "mysql" THEN NextAt(T, D, s, e, D[s], {"USE", "FORCE", "IGNORE"}) ELSE e
+    LET h == IF B = "mysql" THEN NextAt(T, D, s, e, D[s], {"USE", "FORCE", "IGNORE"})
+             ELSE IF B = "pg" THEN NextAt(T, D, s, e, D[s], {"TABLESAMPLE"}) ELSE e
         hasAs == h - 2 >= s /\ T[h - 2].k = "word" /\ T[h - 2].u = "AS" /\ T[h - 1].k = "qid"
         n == QualName(T, s, IF hasAs THEN h - 2 ELSE h, <<>>)
+        \* PostgreSQL: TABLESAMPLE method ( number ) [REPEATABLE ( number )]
+        smOk == B = "pg" /\ h < e /\ h + 4 < e + 1 /\ T[h + 1].k = "word" /\ T[h + 2].k = "lp" /\ T[h + 3].k = "num" /\ T[h + 4].k = "rp"
+                /\ (h + 5 = e \/ (h + 9 = e /\ IsWordU(T, h + 5, "REPEATABLE") /\ T[h + 6].k = "lp" /\ T[h + 7].k = "num" /\ T[h + 8].k = "rp"))
     IN IF ~n.ok THEN n
+       ELSE IF B = "pg" /\ h < e /\ ~smOk THEN GErr("malformed_TABLESAMPLE_clause")
        ELSE GOk([k |-> "table", names |-> n.v, a |-> IF hasAs THEN T[h - 1].v ELSE "",
-                 hints |-> IF h < e THEN [i \in 1..(e - h) |-> IF T[h + i - 1].k = "qid" THEN T[h + i - 1].v ELSE T[h + i - 1].u] ELSE <<>>], e)
+                 hints |-> IF B = "mysql" /\ h < e THEN [i \in 1..(e - h) |-> IF T[h + i - 1].k = "qid" THEN T[h + i - 1].v ELSE T[h + i - 1].u] ELSE <<>>,
+                 sample |-> IF B = "pg" /\ h < e THEN [k |-> "sample", method |-> T[h + 1].u, pct |-> T[h + 3].t, rep |-> IF h + 5 = e THEN "" ELSE T[h + 7].t]
+                            ELSE [k |-> "none"]], e)
 
 RECURSIVE TableRefs(_, _, _, _, _, _)
 TableRefs(B, T, D, parts, i, acc) ==
@@ -227,7 +235,8 @@ ParseCore(B, T, D, s, e) ==
             o == NextAt(T, D, a1, b, d, {"ON"})
             t == TableRef(B, T, D, a1, o)
             p == IF o < b THEN ExprOf(B, T, o + 1, b) ELSE Ok(NoneG, 0)
-        IN IF ~t.ok THEN t ELSE IF ~p.ok THEN GErr("join_on:" \o p.tr.why)
+        IN IF lat /\ B = "sqlite" THEN GErr("sqlite_has_no_LATERAL")
+           ELSE IF ~t.ok THEN t ELSE IF ~p.ok THEN GErr("join_on:" \o p.tr.why)
            ELSE GOk([jt |-> T[cl[k]].u, lateral |-> lat, t |-> t.v, on |-> p.tr], 0)
       joins == [x \in DOMAIN joinIdx |-> JoinAt(joinIdx[x])]
       where == IF kWhere = 0 THEN Ok(NoneG, 0) ELSE ExprOf(B, T, cl[kWhere] + 1, endOf(kWhere))
